@@ -140,6 +140,8 @@ struct Ctx {
     branch: std::collections::BTreeMap<&'static str, u64>,
     hsize: usize,
     halign: usize,
+    /// minimum alignment to print on the next op line instead of the handle's (a by-value handle already carries its new alignment)
+    ma_override: Option<usize>,
     up: bool,
     ga: bool,
     de: bool,
@@ -267,7 +269,7 @@ fn log_op(ctx: &mut Ctx, sc: &dyn ScopeOps, optext: &str, outcome: &str) -> Dump
         ctx.out,
         "op {optext}{resp_part} => {outcome} | reqs {reqs} | cur {cur} pos {} ma {} | stats {} | any {} | chunks {} | live {} sum {}",
         cur_pos(&d, ctx.up),
-        sc.x_min_align(),
+        ctx.ma_override.take().unwrap_or_else(|| sc.x_min_align()),
         stat_str(&d.typed),
         stat_str(&d.any),
         chunks.join(" "),
